@@ -162,6 +162,43 @@ def check_table_sequences(ctx):
                     "every counted entry of a scanned table is compared against the table's max_sequence")
 
 
+def check_every_log_converted(ctx):
+    """Every log found is converted before it is archived: repair has no
+    MANIFEST to tell which logs are obsolete, so skipping one loses its
+    updates.  always_before(convert, archive) on every path of the loop, and
+    the loop covers all logs."""
+    f = ctx.fn("convert_logs_to_tables", RP)
+    g = xgraph(ctx.P, f)
+    cv = [(b, i, e) for (b, i, e) in f.events("call") if is_call(e, "convert_log_to_table")]
+    if not cv:
+        ctx.bad("T1-repair-logs", "converted", f.name, f.loc, "logs are no longer converted to tables")
+        return
+    ctx.check(len(cv) == 1 and argkey(cv[0][2], 1) in ("log", "rep->logs.items[i]") and
+              holds(g.must_at(cv[0][0], cv[0][1]), ("<", "i", "rep->logs.length")), "T1-repair-logs", "converted", f.name, site(f, cv[0][2]),
+              "each listed log is converted", "log conversion changed")
+    from ..rules import BAD, check_automaton
+
+    def step(q, e, st, b, i):
+        if q == BAD:
+            return q
+        if e["e"] == "decl" and e["n"] == "log":
+            return 0
+        if is_call(e, "convert_log_to_table"):
+            return 1
+        if is_call(e, "archive_file") and q == 0:
+            return BAD
+        return q
+    check_automaton(ctx, "T1-repair-logs", "converted-before-archived", f, 0, step, None,
+                    "a log is moved away only after it was converted")
+    from ..rules import sequences_under
+    seqs = sequences_under(f, lambda e: "convert" if is_call(e, "convert_log_to_table") else ("archive" if is_call(e, "archive_file") else None),
+                           lambda t: 1 if (t.get("k") == "call" and t.get("f") == "ldb_log_filename") else None,
+                           start=lambda e: e["e"] == "decl" and e["n"] == "log")
+    rounds = {tuple(x for x in s2 if x != "<loop>")[:2] for s2 in seqs}
+    ctx.check(rounds == {("convert", "archive")}, "T1-repair-logs", "every-log", f.name, f.loc,
+              "every round of the loop converts its log and then archives it", "a round of the log loop performs %s" % sorted(rounds))
+
+
 def check_archive_not_delete(ctx):
     P = ctx.P
     n = 0
@@ -228,6 +265,7 @@ def check_level0_provenance(ctx):
 
 
 def check(ctx):
+    check_every_log_converted(ctx)
     check_table_sequences(ctx)
     check_pipeline(ctx)
     check_descriptor(ctx)
